@@ -33,8 +33,5 @@ MANIFEST_BASE = dict(
     notes="See DESIGN.md. Exit 2 of a check means inconclusive (timeout/build problem), never a violation.",
 )
 
-# properties not (yet) claimed, with the reason
-NOT_CLAIMED = {
-    "C%02d" % i: "check not implemented yet in this round (planned, see DESIGN.md §5/§12); no verdict is claimed"
-    for i in range(1, 21)
-}
+# properties not claimed, with the reason (none: every listed property is decided by a check)
+NOT_CLAIMED = {}
